@@ -80,6 +80,30 @@ Theorem extract_total_identity_or_nonzero :
 Proof. exact extract_total_lemma. Qed.
 Print Assumptions extract_total_identity_or_nonzero.
 
+(* "installs a context": for every byte string in every header, an installed context carries exactly the left-zero-padded
+   hexadecimal values of the header's id fields, located by the documented grammar ([b3_id_fields], [id_fields]: what
+   precedes the first separator / lies between the first and the second) *)
+Theorem extract_ids_from_header :
+  (forall b3 xt xs xf c, b3_extract b3 xt xs xf = Some c ->
+     decode_id 16 (fst (b3_id_fields b3 xt xs)) = Some (c_tid c) /\
+     decode_id 8 (snd (b3_id_fields b3 xt xs)) = Some (c_sid c)) /\
+  (forall h c, jaeger_extract h = Some c ->
+     decode_id 16 (fst (id_fields colon h)) = Some (c_tid c) /\
+     decode_id 8 (snd (id_fields colon h)) = Some (c_sid c)).
+Proof. exact (conj b3_extract_ids_lemma jaeger_extract_ids_lemma). Qed.
+Print Assumptions extract_ids_from_header.
+
+(* hence an id field that is empty, not hexadecimal or longer than 32 / 16 digits never leads to an installed context *)
+Theorem bad_id_field_not_installed :
+  (forall b3 xt xs xf,
+     decode_id 16 (fst (b3_id_fields b3 xt xs)) = None \/ decode_id 8 (snd (b3_id_fields b3 xt xs)) = None ->
+     b3_extract b3 xt xs xf = None) /\
+  (forall h,
+     decode_id 16 (fst (id_fields colon h)) = None \/ decode_id 8 (snd (id_fields colon h)) = None ->
+     jaeger_extract h = None).
+Proof. exact bad_id_field_not_installed_lemma. Qed.
+Print Assumptions bad_id_field_not_installed.
+
 (* the executable SPEC clauses hold of the model's observation, for every input *)
 Theorem model_meets_spec_b3 : forall b3 xt xs xf,
   spec_b3_extract b3 xt xs xf (option_map obs_of (b3_extract b3 xt xs xf)) true = [].
